@@ -72,6 +72,10 @@ CLAIMED["C10"] = dict(engine="E1", technique="symbolic execution of the real sof
     text="Wagner: for every tie-free real LLR vector of the stated layouts the returned codeword maximises the correlation over all 2^k single-parity-check codewords (one query per path, competitor symbolic). Min-sum: compute_cv_minsum equals sign product x minimum magnitude (scaled/offset) for all inputs on single-check codes, clean LLRs with symbolic magnitudes decode to the message and decoding is invariant to rescaling by 3. Soft Reed-Muller and sum-product BP: clean decoding (known finding / stretch).",
     note="Ties and exact zeros excluded; floats as reals; exact posteriors on cycle-free graphs are outside the claim; SPC k <= 4 (6), LDPC matrices 3x6 and 3x7, iterations <= 2 (3).",
     ref="DESIGN.md §4 C10, §6")
+CLAIMED["C18"] = dict(engine="E2", technique="AST-level bounded symbolic interpretation of kaira/models/fec/algebra.py over z3 bit-vectors (merge-on-if, fork per trip count with unwinding assertions, no-overflow side conditions); z3 decides each ring/field law, cvc5 re-decides a sample of the unsat obligations",
+    text="Euclidean-ring laws of BinaryPolynomial (division with remainder, gcd, lcm, ring laws) and field laws of GF(2^m) (commutativity, identity, inverses, powers, Frobenius, distributivity, associativity, order of the primitive element, trace, conjugates, minimal polynomials) for all operands inside the degree / field-size bounds recorded in the evidence file.",
+    note="Bounds are dictated by solver capacity on multiplier-equivalence formulas (see evidence 'bounds'); beyond them the property is not claimed. The interpreter is validated on every run against the repository's own test literals and seeded random inputs; in-memory AST mutants must be flagged.",
+    ref="DESIGN.md §4 C18, §2.2")
 NOT_YET = {}
 
 PENDING_REASON = "check not built yet in this round (planned: see DESIGN.md §8); not claimed until its check exists"
